@@ -368,7 +368,14 @@ def replay(cfg, events):
     for e in events:
         e = dict(e)
         op = e["op"]
-        if op == "spell_plan" and e["fmt"] == "xml":
+        if op == "spell_plan" and e["fmt"] == "json-ld":
+            from .jsonld_spell import JsonLdWriter
+            jw = JsonLdWriter(e["seed"], e["plan"]["doc"])
+            text = jw.render()
+            e2 = {"op": "spell", "fmt": "json-ld", "routes_wanted": e["routes"], "family": e.get("family", "")}
+            do_spell(e2, text, jw.expected(e["plan"]["quads"], abst))
+            evs.append(e2)
+        elif op == "spell_plan" and e["fmt"] == "xml":
             from .xml_spell import XmlWriter
             xw = XmlWriter(e["seed"], e["plan"]["doc"])
             text = xw.render()
